@@ -104,6 +104,33 @@ class Ctx:
     def dump_states(self, r):
         return list(tlaval.parse_dump(r.dump))
 
+    def dump_blocks(self, r, nblocks=64):
+        """split a dump into text blocks of whole states (parsed inside the pool workers)"""
+        with open(r.dump) as fh:
+            text = fh.read()
+        parts = [p for p in tlaval._STATE_HDR.split(text) if p.strip()]
+        if len(parts) != r.distinct:
+            raise _tlc.MachineryError(f"dump has {len(parts)} states, TLC reports {r.distinct}")
+        return parts
+
+    def simulate(self, module, cfg, num, depth, workers=8, timeout=1500):
+        """tlc -simulate; returns list of behaviour files (one TLA+ module per behaviour)"""
+        r = _tlc.run(module, cfg, self.scratch, workers=workers, timeout=timeout,
+                     simulate={"num": max(1, num // workers), "depth": depth, "seed": self.seed % 100000, "file": True},
+                     tag=f"sim_{module}_{len(self.tlc_runs)}")
+        self.tlc_runs.append({"cmd": r.cmd.replace(self.scratch, "$SCRATCH"), "mode": "simulate",
+                              "wall_s": round(r.wall_s, 2), "violated": r.violated})
+        import re as _re
+        m = _re.search(r"The number of states generated: (\d+)", r.stdout)
+        if m:
+            self.transitions += int(m.group(1))
+        if r.violated:
+            for inv in r.violated:
+                self.violation(key=f"model:{module}:{inv}", what=f"TLC simulation: {inv} violated by {module}",
+                               witness={"tlc_output_tail": r.stdout.strip().split("\n")[-60:]})
+        files = sorted(os.path.join(r.simdir, f) for f in os.listdir(r.simdir))
+        return r, files
+
     def trace_check(self, module, cfg, traces, *, tag="VERDICT", timeout=1500, heap="6g", name=None):
         """Validate recorded traces with a trace spec. Returns list of verdict tuples."""
         name = name or module
@@ -296,8 +323,12 @@ def finish(ctx, level="model_checking", rule="", extra=None):
         "wall_s": round(time.time() - ctx.t0, 2),
         "violations": len(new),
     }
-    os.makedirs(os.path.join(ROOT, "evidence"), exist_ok=True)
-    with open(os.path.join(ROOT, "evidence", f"{ctx.prop}.json"), "w") as fh:
+    evdir = os.path.join(ROOT, "evidence")
+    if os.path.realpath(REPO) != "/repo":
+        # a run against another tree (mutation testing) must not overwrite the evidence of /repo
+        evdir = os.path.join(tempfile.gettempdir(), "verif-evidence-other-tree")
+    os.makedirs(evdir, exist_ok=True)
+    with open(os.path.join(evdir, f"{ctx.prop}.json"), "w") as fh:
         json.dump(ev, fh, indent=1)
     print(f"{ctx.prop} {ctx.tier}: states={ctx.states} transitions={ctx.transitions} "
           f"impl_cases={ctx.traces} evaluations={ctx.evaluations} nontrivial={len(ctx.nontrivial)} "
